@@ -469,6 +469,50 @@ def run_solver(text, backend, timeout_s):
             pass
 
 
+def run_portfolio(text_by_backend, per_query_s, total_s, decisive):
+    """run both back ends concurrently on the same obligation text; return as soon as one
+    output is decisive (callable on its stdout), else both outputs.  -> {backend: (out, secs)}"""
+    procs = {}
+    files = []
+    t0 = time.time()
+    for backend, text in text_by_backend.items():
+        fd, path = tempfile.mkstemp(suffix=".smt2", prefix="vc_")
+        with os.fdopen(fd, "w") as f:
+            f.write(text)
+        files.append(path)
+        if backend == "z3":
+            cmd = [Z3, "-smt2", "model_evaluator.completion=true", path]
+        else:
+            cmd = [CVC5, "--strings-exp", "--incremental", "--produce-models",
+                   f"--tlimit-per={int(per_query_s * 1000)}", path]
+        procs[backend] = subprocess.Popen(cmd, stdout=subprocess.PIPE, stderr=subprocess.DEVNULL, text=True)
+    outs = {}
+    deadline = t0 + total_s + 2
+    try:
+        while procs and time.time() < deadline:
+            for b, p in list(procs.items()):
+                if p.poll() is not None:
+                    out = p.stdout.read()
+                    outs[b] = (out, time.time() - t0)
+                    del procs[b]
+                    if decisive(out):
+                        return outs
+            time.sleep(0.005)
+        return outs
+    finally:
+        for p in procs.values():
+            try:
+                p.kill()
+                p.wait(timeout=5)
+            except Exception:
+                pass
+        for path in files:
+            try:
+                os.unlink(path)
+            except OSError:
+                pass
+
+
 def parse_output(out):
     """-> {'pc': res, goals: {name: (res, modeltext)}} where res in sat/unsat/unknown."""
     res = {"pc": None, "goals": {}}
@@ -656,3 +700,89 @@ def parse_model(modeltext, value_terms):
             name = value_terms[k].sx if k < len(value_terms) else str(p[0])
             out.append((name, sexp_value(p[1])))
     return out
+
+
+# ---------------------------------------------------------------------------
+# cone of influence and in-process feasibility pruning (z3 python API)
+# ---------------------------------------------------------------------------
+
+_TOK = re.compile(r"\|[^|]+\||[A-Za-z_][A-Za-z0-9_.!]*")
+_SYMCACHE = {}
+
+
+def syms_of(text, consts):
+    toks = _SYMCACHE.get(text)
+    if toks is None:
+        toks = frozenset(_TOK.findall(text))
+        if len(_SYMCACHE) < 200000:
+            _SYMCACHE[text] = toks
+    return toks & consts
+
+
+def cone(pc, goal_text, consts, hops):
+    """assertions within 'hops' steps of the goal in the shared-constant graph
+    (uninterpreted functions do not connect). Dropping assumptions is sound."""
+    asyms = [syms_of(a, consts) for a in pc]
+    seen = set(syms_of(goal_text, consts))
+    picked = set()
+    for _ in range(hops):
+        new = set()
+        for k, ss in enumerate(asyms):
+            if k not in picked and ss & seen:
+                picked.add(k)
+                new |= ss
+        if not new - seen:
+            seen |= new
+            break
+        seen |= new
+    for k, ss in enumerate(asyms):
+        if not ss:
+            picked.add(k)
+    return [pc[k] for k in sorted(picked)]
+
+
+_Z3 = None
+_FEAS_CACHE = {}
+FEAS_STATS = {"checks": 0, "hits": 0, "unsat": 0}
+
+
+def z3api():
+    global _Z3
+    if _Z3 is None:
+        import sys
+        p = "/opt/veriftools/pyvenv/lib/python3.11/site-packages"
+        try:
+            sys.path.append(p)
+            import z3 as _z
+            _Z3 = _z
+        except Exception:
+            _Z3 = False
+        finally:
+            if p in sys.path:
+                sys.path.remove(p)
+    return _Z3
+
+
+def quick_unsat(header_lines, asserts, timeout_ms=300):
+    """True iff z3 (in-process) proves the assertions inconsistent within the budget"""
+    z = z3api()
+    if not z:
+        return False
+    key = (tuple(header_lines), tuple(sorted(set(asserts))))
+    if key in _FEAS_CACHE:
+        FEAS_STATS["hits"] += 1
+        return _FEAS_CACHE[key]
+    FEAS_STATS["checks"] += 1
+    res = False
+    try:
+        s = z.Solver()
+        s.set("timeout", timeout_ms)
+        s.from_string("\n".join(header_lines) + "\n" + "\n".join(f"(assert {a})" for a in asserts))
+        res = s.check() == z.unsat
+    except Exception:
+        res = False
+    if len(_FEAS_CACHE) < 500000:
+        _FEAS_CACHE[key] = res
+    if res:
+        FEAS_STATS["unsat"] += 1
+    return res
